@@ -12,7 +12,7 @@ Ops == {<<"set", h, t>> : h \in UserStd, t \in {"p", "qq"}}
        \cup {<<"cset", h, t>> : h \in {"X"}, t \in {"p", "qq"}}
        \cup {<<"capp", "X", "p">>, <<"crem", "X">>, <<"cookie", "c1">>}
        \cup {<<"body", "text", "n3">>, <<"body", "json", "n12">>, <<"body", "stream", "n3">>, <<"drop">>}
-       \cup {<<"status", "s204">>, <<"status", "s404">>, <<"rebuild">>}
+       \cup {<<"status", "s204">>, <<"status", "s404">>, <<"status", "s205">>, <<"rebuild">>}
 
 MCInit == ideal = IdealInit /\ impl = ImplInit /\ n = 0
 MCNext == /\ n < MaxOps /\ n' = n + 1
